@@ -1,8 +1,12 @@
 import OmplModel.Proofs.RSWordsCCSC
+import OmplModel.Proofs.RSFiveAll
+import OmplModel.Proofs.RSCCCC
 /-!
-[EX] what `reedsShepp(x, y, φ)` returns reaches the goal — for the families whose base words are proved
-(CSC, CCC, CCSC incl. all backwards images); the CCCC and CCSCC families enter as hypotheses
-(`reedsShepp_reaches_of`) or are excluded by the returned word type (`reedsShepp_reaches_partial`).
+[EX] what `reedsShepp(x, y, φ)` returns reaches the goal (`reedsShepp_reaches`, unconditional): the
+returned path is one of the 48 candidates (`reedsShepp_inv`) and every candidate of every family reaches
+the goal — CSC, CCC, CCSC incl. all backwards images (round 2), CCSCC (`Proofs/RSFiveAll.lean`) and CCCC
+(`Proofs/RSCCCC.lean`, round 3).  `reedsShepp_reaches_of` is the same with the last two families as
+hypotheses.
 -/
 namespace OmplModel.RS
 open OmplModel OmplModel.Dubins DubinsR RSR
@@ -43,22 +47,10 @@ theorem reedsShepp_reaches_of (x y phi : ℝ)
   · exact CCSC_all_candidates_reach x y phi L P h
   · exact hCCSCC L P h
 
-/-- the returned path reaches the goal whenever its word type is not one of the CCCC (2, 3) or
-CCSCC (16, 17) types -/
-theorem reedsShepp_reaches_partial (x y phi : ℝ) (P : RSPath ℝ) (hP : reedsShepp x y phi = some P)
-    (hty : P.ty ≠ 2 ∧ P.ty ≠ 3 ∧ P.ty ≠ 16 ∧ P.ty ≠ 17) : Reaches P x y phi := by
-  obtain ⟨L, hm⟩ := (reedsShepp_inv x y phi).1 P hP
-  unfold allCands at hm
-  simp only [List.mem_append] at hm
-  rcases hm with (((h | h) | h) | h) | h
-  · exact CSC_candidates_reach x y phi L P h
-  · exact CCC_all_candidates_reach x y phi L P h
-  · rcases candsCCCC_ty h with h2 | h2
-    · exact absurd h2 hty.1
-    · exact absurd h2 hty.2.1
-  · exact CCSC_all_candidates_reach x y phi L P h
-  · rcases candsCCSCC_ty h with h2 | h2
-    · exact absurd h2 hty.2.2.1
-    · exact absurd h2 hty.2.2.2
+/-- **whatever `reedsShepp x y φ` returns reaches the goal** (no hypothesis on the word type) -/
+theorem reedsShepp_reaches (x y phi : ℝ) (P : RSPath ℝ) (hP : reedsShepp x y phi = some P) :
+    Reaches P x y phi :=
+  reedsShepp_reaches_of x y phi (fun L Q h => CCCC_candidates_reach x y phi L Q h)
+    (fun L Q h => CCSCC_candidates_reach x y phi L Q h) P hP
 
 end OmplModel.RS
